@@ -24,7 +24,10 @@ func main() {
 	dump := flag.String("dump", "", "dump canonical analysis of a function spec (comma separated)")
 	dumpCalls := flag.String("calls", "", "with -dump: also list calls whose callee name contains this substring ('*' = all)")
 	writes := flag.Bool("writes", false, "list every KVStore Set/Delete site in scope with its key shape")
+	reads := flag.Bool("reads", false, "list every KVStore read site in scope with its key shape")
 	shapes := flag.String("shapes", "", "print the key shape of the given function specs (comma separated)")
+	width := flag.Int("w", 400, "truncate dump/gen lines to this width")
+	_ = width
 	gen := flag.String("gen", "", "print FnSpec skeletons for the given function specs (comma separated); -calls filters effects")
 	noEv := flag.Bool("no-evidence", false, "do not write evidence files")
 	flag.Parse()
@@ -48,6 +51,12 @@ func main() {
 	if *writes {
 		for _, w := range p.StoreWrites() {
 			fmt.Printf("%-6s %-55s %s   @%s\n", w.Op, funcName(w.Fn), w.Full(p), p.Pos(w.Pos))
+		}
+		return
+	}
+	if *reads {
+		for _, r := range p.StoreReads() {
+			fmt.Printf("%-15s %-55s %s   @%s\n", r.Op, funcName(r.Fn), r.Full, p.Pos(r.Pos))
 		}
 		return
 	}
